@@ -57,7 +57,7 @@ def parse_terminals(s):
     return names, ok, right.strip()
 
 
-def sentences(rng, g, types, n, maxdepth=7):
+def sentences(rng, g, types, n, maxdepth=7, maxlen=30):
     """random sentences by derivation (token type lists)"""
     prods = {}
     for head, body, _, _ in g["syn"]:
@@ -83,7 +83,7 @@ def sentences(rng, g, types, n, maxdepth=7):
                 if name not in types:
                     return None
                 res.append(types[name])
-            if len(res) > 40:
+            if len(res) > maxlen + 10:
                 return None
         return res
     for _ in range(n * 3):
@@ -91,11 +91,158 @@ def sentences(rng, g, types, n, maxdepth=7):
             s = expand(start, rng.randint(1, maxdepth))
         except RecursionError:
             s = None
-        if s is not None and len(s) <= 30:
+        if s is not None and len(s) <= maxlen:
             out.append(s)
         if len(out) >= n:
             break
     return out
+
+
+def long_sentence(rng, g, types, target=400):
+    """a sentence of about `target` tokens (deep parser stack), or None if the grammar has no recursion to pump"""
+    import sys
+    sys.setrecursionlimit(20000)
+    prods = {}
+    for head, body, _, _ in g["syn"]:
+        prods.setdefault(head, []).append([] if body[0][1] == "empty" else body)
+    INF = 10 ** 9
+    minlen = {h: INF for h in prods}
+    changed = True
+    while changed:
+        changed = False
+        for h, alts in prods.items():
+            for b in alts:
+                l = 0
+                for k, nm in b:
+                    l += minlen.get(nm, INF) if (k == 0 and nm in prods) else (1 if nm in types else INF)
+                if l < minlen[h]:
+                    minlen[h] = l
+                    changed = True
+    start = g["syn"][0][0]
+    if minlen.get(start, INF) >= INF:
+        return None
+    budget = [target]
+
+    def cost(b):
+        return sum(minlen.get(nm, INF) if (k == 0 and nm in prods) else (1 if nm in types else INF) for k, nm in b)
+
+    def gen(sym, depth):
+        alts = [b for b in prods[sym] if cost(b) < INF]
+        rec = [b for b in alts if any(k == 0 and nm in prods for k, nm in b)]
+        budget[0] -= 1
+        if budget[0] > 0 and rec and depth < 4000:
+            b = rng.choice(rec)
+        else:
+            b = min(alts, key=cost)
+        out = []
+        for k, nm in b:
+            if k == 0 and nm in prods:
+                out += gen(nm, depth + 1)
+            else:
+                out.append(types[nm])
+                budget[0] -= 1
+        return out
+    try:
+        s2 = gen(start, 0)
+    except RecursionError:
+        return None
+    return s2 if 100 < len(s2) <= 900 else None
+
+
+def deep_sentence(rng, g, types, depth=130, maxlen=1500):
+    """a sentence whose LR parse needs a stack deeper than `depth`: pumps a recursion `A => alpha A' beta` in which
+    something (alpha, at least one token) stays on the stack while A' is parsed (right or centre recursion); None if
+    the grammar has no such recursion"""
+    prods = {}
+    for head, body, _, _ in g["syn"]:
+        prods.setdefault(head, []).append([] if body[0][1] == "empty" else list(body))
+    INF = 10 ** 9
+
+    def is_nt(sy):
+        return sy[0] == 0 and sy[1] in prods
+    minexp = {}
+    changed = True
+    while changed:
+        changed = False
+        for h, alts in prods.items():
+            for b in alts:
+                out, ok = [], True
+                for sy in b:
+                    if is_nt(sy):
+                        if sy[1] not in minexp:
+                            ok = False
+                            break
+                        out += minexp[sy[1]]
+                    elif sy[1] in types:
+                        out.append(types[sy[1]])
+                    else:
+                        ok = False
+                        break
+                if ok and (h not in minexp or len(out) < len(minexp[h])):
+                    minexp[h] = out
+                    changed = True
+    start = g["syn"][0][0]
+    if start not in minexp:
+        return None
+
+    def finite(b):
+        return all((sy[1] in minexp) if is_nt(sy) else (sy[1] in types) for sy in b)
+
+    def expand_min(b):
+        out = []
+        for sy in b:
+            out += minexp[sy[1]] if is_nt(sy) else [types[sy[1]]]
+        return out
+    reach = {h: {h} for h in prods}
+    changed = True
+    while changed:
+        changed = False
+        for h, alts in prods.items():
+            for b in alts:
+                if not finite(b):
+                    continue
+                for sy in b:
+                    if is_nt(sy) and not reach[sy[1]] <= reach[h]:
+                        reach[h] |= reach[sy[1]]
+                        changed = True
+    # pump sites: (A, alternative, position j) with a token-bearing prefix and A reachable again from b[j]
+    sites = {}
+    for h, alts in prods.items():
+        for b in alts:
+            if not finite(b):
+                continue
+            for j in range(1, len(b)):
+                if is_nt(b[j]) and h in reach[b[j][1]] and len(expand_min(b[:j])) >= 1:
+                    sites.setdefault(h, []).append((b, j))
+    cands = [a for a in sites if a in reach[start]]
+    if not cands:
+        return None
+    A = rng.choice(sorted(cands))
+
+    def walk(sym, n):
+        """derive from sym, passing n more times through a pump site of A"""
+        if sym == A and n > 0:
+            b, j = rng.choice(sites[A])
+            return expand_min(b[:j]) + walk(b[j][1], n - 1) + expand_min(b[j + 1:])
+        if n == 0 and sym != A:
+            return list(minexp[sym])
+        if n == 0:
+            return list(minexp[A])
+        # go towards A
+        opts = [(b, j) for b in prods[sym] if finite(b) for j in range(len(b)) if is_nt(b[j]) and A in reach[b[j][1]] and b[j][1] != sym]
+        if not opts:
+            opts = [(b, j) for b in prods[sym] if finite(b) for j in range(len(b)) if is_nt(b[j]) and A in reach[b[j][1]]]
+        if not opts:
+            return list(minexp[sym])
+        b, j = rng.choice(opts)
+        return expand_min(b[:j]) + walk(b[j][1], n) + expand_min(b[j + 1:])
+    import sys
+    sys.setrecursionlimit(20000)
+    try:
+        out = walk(start, depth)
+    except RecursionError:
+        return None
+    return out if len(out) <= maxlen else None
 
 
 def mutate(rng, s, alphabet):
@@ -123,6 +270,9 @@ def gen_inputs(rng, g, types, n_random, max_enum=130):
     for l in range(L + 1):
         inputs += [list(t) for t in itertools.product(tts, repeat=l)]
     sents = sentences(rng, g, types, n_random)
+    ls = long_sentence(rng, g, types, target=rng.choice([120, 300]))
+    if ls:
+        sents.append(ls)
     inputs += sents
     for s in sents:
         inputs.append(mutate(rng, s, alphabet))
@@ -136,7 +286,7 @@ def gen_inputs(rng, g, types, n_random, max_enum=130):
     return uniq
 
 
-def run_family(ck, n_grammars, n_random, p_err=0.3, want_hist=True, conflict_bias=0.0):
+def run_family(ck, n_grammars, n_random, p_err=0.3, want_hist=True, conflict_bias=0.0, zip_frac=0.25):
     rng = ck.rng
     gs = make_grammars(rng, n_grammars, p_err, conflict_bias)
     b = batch.Batch("parse")
@@ -144,7 +294,8 @@ def run_family(ck, n_grammars, n_random, p_err=0.3, want_hist=True, conflict_bia
     try:
         idx = []
         for g in gs:
-            i_a = b.add(g, flags=["-a", "-no_lexer"])
+            # a quarter of the parsers are generated with -zip: the compiled tables (after init()) must be the same
+            i_a = b.add(g, flags=["-a", "-no_lexer"] + (["-zip"] if rng.random() < zip_frac else []))
             text = b.items[i_a]["text"]
             i_n = b.add(g, flags=["-no_lexer"], text=text.replace(b"ws/g%d/" % i_a, b"ws/g%d/" % (i_a + 1)))
             sg = strip_error(g) if g["err"] else None
@@ -195,9 +346,19 @@ def run_family(ck, n_grammars, n_random, p_err=0.3, want_hist=True, conflict_bia
                     ilines.append("parse %d 0 %s" % (i_s, " ".join(map(str, ws))))
                     meta.append((gi, "stripped", w, 0))
             if want_hist and inputs:
-                for _ in range(3):
+                # one long sentence per grammar where the grammar allows it: a deep stack must not leave traces in the object
+                ls = deep_sentence(rng, g, types) or long_sentence(rng, g, types)
+                longs = [ls] if ls else []
+                after = [x for x in sentences(rng, g, types, 4) if 0 < len(x) <= 40] if longs else []
+                for k3 in range(3):
                     hist = [rng.choice(inputs) for _ in range(rng.randint(2, 5))]
                     fails = [rng.choice([0, 0, 1, 2]) for _ in hist]
+                    if longs and k3 == 0:
+                        # the deep parse is followed by sentences whose actions read their attributes
+                        at = rng.randint(0, len(hist) - 1)
+                        tail = [rng.choice(after) for _ in range(2)] if after else []
+                        hist = hist[:at] + [longs[0]] + tail + hist[at:]
+                        fails = fails[:at] + [rng.choice([0, 0, 1])] + [0] * len(tail) + fails[at:]
                     ilines.append("parsehist %d %d %s" % (i_a, len(hist), " ".join("%d %d %s" % (f, len(h), " ".join(map(str, h))) for f, h in zip(fails, hist)).replace("  ", " ")))
                     meta.append((gi, "hist", hist, fails))
         iout = b.run(ilines) if ilines else []
@@ -229,11 +390,12 @@ def run_family(ck, n_grammars, n_random, p_err=0.3, want_hist=True, conflict_bia
                     hist_as_parses.append("parse %d %d %s" % (idx[m[0]][0], f, " ".join(map(str, h))))
         olines = []
         for l, m in list(zip(ilines, meta)) + list(zip(il2, meta2)):
-            if m[1] == "parse":
+            # the oracles are cubic: long inputs (deep-stack tests) are compared with the model only
+            if m[1] == "parse" and len(m[2]) <= 40:
                 f = l.split()
                 olines.append("earley %s %s" % (f[1], " ".join(f[3:])))
                 olines.append("tree %s 0 %s" % (f[1], " ".join(f[3:])))
-            elif m[1] == "fail":
+            elif m[1] == "fail" and len(m[2]) <= 40:
                 f = l.split()
                 olines.append("tree %s %s %s" % (f[1], f[2], " ".join(f[3:])))
         fresh = b.run(hist_as_parses) if hist_as_parses else []
